@@ -395,9 +395,18 @@ var formats = []string{"text", "stylish", "json", "sarif", "null"}
 func genProblems(rnd *hx.Rand) []Problem {
 	n := rnd.Intn(6)
 	var ps []Problem
+	// printDiagnostics first merges problems with the same position, category (up to case) and message
+	// (that is C12's subject); C11's cases hand it pairwise different problems
+	seen := map[string]bool{}
 	for i := 0; i < n; i++ {
-		ps = append(ps, Problem{File: []string{"a.go", "dir/b.go"}[rnd.Intn(2)], Line: 1 + rnd.Intn(4), Col: 1 + rnd.Intn(3),
-			Cat: exitCats[rnd.Intn(len(exitCats))], Msg: exitMsgs[rnd.Intn(len(exitMsgs))], Ignored: rnd.Chance(25)})
+		p := Problem{File: []string{"a.go", "dir/b.go"}[rnd.Intn(2)], Line: 1 + rnd.Intn(4), Col: 1 + rnd.Intn(3),
+			Cat: exitCats[rnd.Intn(len(exitCats))], Msg: exitMsgs[rnd.Intn(len(exitMsgs))], Ignored: rnd.Chance(25)}
+		key := fmt.Sprintf("%s:%d:%d:%s:%s", p.File, p.Line, p.Col, strings.ToLower(p.Cat), p.Msg)
+		if seen[key] {
+			continue
+		}
+		seen[key] = true
+		ps = append(ps, p)
 	}
 	return ps
 }
@@ -569,7 +578,7 @@ func genCLI(rnd *hx.Rand, exe, work string, nmods, nruns int, names []string) []
 			runs[k], argv[k] = c, args
 		}
 		var wg sync.WaitGroup
-		sem := make(chan struct{}, 6)
+		sem := make(chan struct{}, 8)
 		for k := range runs {
 			wg.Add(1)
 			go func(k int) {
